@@ -140,6 +140,9 @@ func (fr *frame) execInstr(st *state, in ssa.Instruction) {
 	case *ssa.UnOp:
 		fr.execUnOp(st, v)
 	case *ssa.Store:
+		if _, direct := v.Addr.(*ssa.Global); !direct {
+			fr.globalDerivedWrite(st, v.Addr, v.Pos(), "store")
+		}
 		if fc.e.contracts.NoCaptureWrite[fc.e.keyOf(fr.fn)] {
 			base := v.Addr
 			for {
@@ -295,6 +298,7 @@ func (fr *frame) execInstr(st *state, in ssa.Instruction) {
 	case *ssa.Lookup:
 		fr.execLookup(st, v)
 	case *ssa.MapUpdate:
+		fr.globalDerivedWrite(st, v.Map, v.Pos(), "map update")
 		md, mv, ks, _ := fc.e.mapKeys(v.Map.Type())
 		m := fr.val(v.Map)
 		k := fr.mapKey(st, fr.val(v.Key), v.Key.Type(), ks)
@@ -1012,4 +1016,46 @@ func (fr *frame) fieldFrame(st *state, l *Loc, pos token.Pos) {
 			fr.oblige(st, "fieldframe", name, pos, fmt.Sprintf("(>= %s %s)", l.idx[0], entry.old.alloc), "field "+name+" is written outside its owning functions in an object this function did not allocate (state shared between calls: C18)")
 		}
 	}
+}
+
+
+// globalRoot: the package-level variable a value was loaded from (directly, or through field / element
+// addressing), or nil.
+func globalRoot(v ssa.Value) *ssa.Global {
+	for i := 0; i < 8 && v != nil; i++ {
+		switch x := v.(type) {
+		case *ssa.Global:
+			return x
+		case *ssa.UnOp:
+			if x.Op != token.MUL {
+				return nil
+			}
+			v = x.X
+		case *ssa.FieldAddr:
+			v = x.X
+		case *ssa.IndexAddr:
+			v = x.X
+		case *ssa.ChangeType:
+			v = x.X
+		default:
+			return nil
+		}
+	}
+	return nil
+}
+
+// globalDerivedWrite: a write into an object reached through a package-level variable (a map, a struct, an
+// array held by the variable) is a write to state shared by every call, unless the function is one of the
+// package's permitted writers (globalframe directive).
+func (fr *frame) globalDerivedWrite(st *state, target ssa.Value, pos token.Pos, what string) {
+	fc := fr.fc
+	g := globalRoot(target)
+	if g == nil || g.Pkg == nil {
+		return
+	}
+	only, has := fc.e.contracts.GlobalFrame[g.Pkg.Pkg.Name()]
+	if !has || matchFuncs(only, fc.e.keyOf(fr.fn)) {
+		return
+	}
+	fr.oblige(st, "globalframe", g.Pkg.Pkg.Name()+"."+g.Name()+"("+what+")", pos, "false", what+" on an object held by the package-level variable "+g.Name()+" outside the functions allowed to write it (shared by every call: C18)")
 }
